@@ -180,6 +180,21 @@ def canon_fns(raw, known):
             c = [x for x in c if fps.get(x) == fu]
         if len(c) == 1:
             m.setdefault(c[0], []).append(u)
+    # moved (and possibly renamed) to another module / impl: same signature and the same body structure, unique on both sides
+    taken_u = {u for us in m.values() for u in us}
+    for u in unknown:
+        if u in taken_u:
+            continue
+        pu, nu = parent_of(u)
+        if pu.startswith('<') and ' as ' in pu:
+            continue
+        fu = None
+        c = [x for x in missing if x not in m and sigs[x] == sig_of(tops[u])]
+        if c:
+            fu = body_fp(tops[u], abstract)
+            c = [x for x in c if fps.get(x) == fu]
+        if len(c) == 1 and not [v for v in unknown if v != u and v not in taken_u and sig_of(tops[v]) == sigs[c[0]] and body_fp(tops[v], abstract) == fu]:
+            m.setdefault(c[0], []).append(u)
     pairs = []
     for old, us in m.items():
         if len(us) > 1:
